@@ -82,11 +82,21 @@ def compare(pid, case, ctx, cfgs, extended=False, expect=None, strata_fn=None):
         self_check(M, a, v, f)
     out = []
     sig = (len(allat), tuple(zip(sem.ver, sem.fal)))
+    kw = {}
+    variant = case.get("variant")
+    if variant is None:
+        variant = "parallel" if int(gen.case_hash([case.get("atoms"), case.get("base"), case.get("queries")]), 16) % 10 == 0 else "plain"
+    if variant == "parallel" and len({fm.cond_text(B, A) for _, B, A in queries}) == len(queries):
+        # same question under another way of asking: parallel evaluation with budgets that cannot
+        # expire (60 s per query, 600 s total) - the answers are the definition's all the same
+        kw = {"multi_inference": True, "inference_timeout": 60, "total_timeout": 600}
+        ctx.stratum("variant:parallel-with-generous-budgets")
     for cfg in cfgs:
-        res = bridge.answers(atoms, base, queries, cfg, weakly=extended)
+        res = bridge.answers(atoms, base, queries, cfg, weakly=extended, **kw)
         if res[0] == "exc":
             ctx.ev(1)
-            out.append(obs(f"{cfg}|{res[1]}", {"message": res[2], "base": base_text(base)}))
+            out.append(obs(f"{cfg}|{res[1]}", {"message": res[2], "base": base_text(base), "call_options": kw},
+                           case=dict(case, variant=variant)))
             continue
         got = res[1]
         if len(got) != len(queries):
@@ -104,12 +114,17 @@ def compare(pid, case, ctx, cfgs, extended=False, expect=None, strata_fn=None):
                 ctx.stratum("query:vacuous")
             if strata_fn is not None:
                 strata_fn(ctx, M, (a, v, f), (B, A), e)
+            row = res[2][i]
+            if kw and (bool(row["inference_timed_out"]) or bool(row["preprocessing_timed_out"])):
+                ctx.stratum("variant:row-flagged(not judged)")    # a 60 s budget expired for real: inconclusive
+                continue
             if not is_bool(g):
                 out.append(obs(f"{cfg}|non-boolean", {"query": fm.cond_text(B, A), "got": repr(g)}))
             elif bool(g) != e:
                 out.append(obs(f"{cfg}|wrong:{e}->{bool(g)}",
                                {"query": fm.cond_text(B, A), "expected": e, "got": bool(g),
-                                "base": base_text(base), "qindex": i}))
+                                "base": base_text(base), "qindex": i, "call_options": kw},
+                               case=dict(case, variant=variant)))
     if len(ctx.samples) < ctx.max_samples and ctx.record and not case.get("exhaustive") and len(base) >= 2:
         ctx.sample({"base": base_text(base), "queries": [fm.cond_text(B, A) for _, B, A in queries],
                     "expected": {c: exp[c] for c in cfgs}})
